@@ -11,6 +11,10 @@ DIRECT = ["out.iq.sync.get"]
 CLASS = {"full": FULL, "okonly": OKONLY, "direct": DIRECT}
 
 
+class CallbackFailure(Exception):
+    pass
+
+
 class World(object):
     """One real stack + the bookkeeping that maps model ids to concrete requests."""
     def __init__(self, rng, cat):
@@ -55,6 +59,9 @@ class World(object):
                 if which == "err" and state["retry"]:
                     state["retry"] = False
                     self.app._sendIq(original, mk("ok") if ok else None, mk("err"))
+                elif mid % 3 == 2:
+                    # an application callback that fails: the reply was still its reply (it is not ALSO handed on as an ordinary stanza)
+                    raise CallbackFailure("application callback of request %d fails" % mid)
             return cb
         orig_send = self.bottom.send
         if inline:
@@ -62,7 +69,10 @@ class World(object):
                 orig_send(data)
                 if data.tag == "iq" and data["id"] == ent.getId():
                     self.bottom.send = orig_send
-                    self.bottom.toUpper(self.reply_node(kind, ent, inline))
+                    try:
+                        self.bottom.toUpper(self.reply_node(kind, ent, inline))
+                    except CallbackFailure:
+                        pass
             self.bottom.send = send_and_reply
         try:
             if app:
@@ -75,7 +85,18 @@ class World(object):
 
     def reply_node(self, kind, ent, typ):
         if typ != "result":
-            return self.vary_from(kind.iq_reply["error"](self.rng, ent))
+            node = kind.iq_reply["error"](self.rng, ent)
+            # the <error/> child of an error reply carries a numeric code as a rule - but also a text only, a symbolic code, or nothing
+            c = self.rng.random()
+            err = node.getChild("error")
+            if err is not None and c < 0.3:
+                if c < 0.12 and err["code"] is not None:
+                    err.removeAttribute("code")
+                elif c < 0.2:
+                    err["code"] = "not-acceptable"
+                elif err["text"] is not None:
+                    err.removeAttribute("text")
+            return self.vary_from(node)
         # every result shape the catalogue knows for this request (e.g. the <duplicate> form of an upload result)
         builders = [lambda: kind.iq_reply["result"](self.rng, ent)]
         for k in self.cat.KINDS:
@@ -97,7 +118,10 @@ class World(object):
     def deliver(self, mid, typ):
         kind, ent = self.reqs[mid - 1]
         node = self.reply_node(kind, ent, typ)
-        self.bottom.toUpper(node)
+        try:
+            self.bottom.toUpper(node)
+        except CallbackFailure:
+            pass        # reported to whoever delivered the stanza (C12's subject); the routing of the reply is what is compared here
         return node
 
     def deliver_unknown(self, typ, shape):
